@@ -115,6 +115,21 @@ fn gen_pair(rng: &mut Rng, index: u64) -> (Geometry<f64>, Geometry<f64>) {
             let a = wrap_poly(rng, Polygon::new(ext, holes), (-20, -20));
             if rng.chance(1, 2) { (a, b) } else { (b, a) }
         }
+        2 if rng.chance(1, 2) => {
+            // a polygon with two holes whose bounding boxes overlap: an L-shaped hole listed first (or last)
+            // wraps around a small square hole; B lies inside one of the two holes
+            let ext = rect_ring(-1, -1, 11, 11);
+            let l_hole = LineString(vec![c(0, 0), c(10, 0), c(10, 3), c(3, 3), c(3, 10), c(0, 10), c(0, 0)]);
+            let sq = rect_ring(5, 5, 9, 9);
+            let mut holes = vec![l_hole, sq];
+            if rng.chance(1, 3) { holes.reverse(); }
+            let a = wrap_poly(rng, Polygon::new(ext, holes), (-30, -30));
+            // B: a small geometry of the requested kind inside the square hole or inside a leg of the L
+            let inner = gen_kind(rng, 2, kb, 0);
+            let (ox, oy) = *rng.pick(&[(6.0, 6.0), (6.0, 6.0), (0.5, 0.5), (6.0, 0.5), (0.5, 6.0)]);
+            let b = shift(&inner, ox, oy);
+            if rng.chance(1, 2) { (a, b) } else { (b, a) }
+        }
         2 => {
             // nested: B inside a big polygon without holes (distance 0 by containment)
             let b = gen_kind(rng, k, kb, 1);
